@@ -1,4 +1,4 @@
-;; needs: num val
+;; needs: num val base
 ; ---------------------------------------------------------------------------
 ; The intended BSON order (property C12), written from the property text:
 ; class rank first (null < numbers < strings < documents < arrays < binary <
@@ -7,23 +7,7 @@
 ; bytescmp; documents and arrays lexicographically, a proper prefix is smaller.
 ; This file is the specification; nothing in it is derived from the code.
 
-(define-fun class ((v Val)) Int
-  (ite (or ((_ is VNil) v) ((_ is VNull) v) ((_ is VMissing) v)) 0
-  (ite (or ((_ is VI32) v) ((_ is VI64) v) ((_ is VF64) v) ((_ is VDec) v)) 1
-  (ite ((_ is VStr) v) 2 (ite ((_ is VDoc) v) 3 (ite ((_ is VArr) v) 4 (ite ((_ is VBin) v) 5
-  (ite ((_ is VOid) v) 6 (ite ((_ is VBool) v) 7 (ite ((_ is VDate) v) 8 (ite ((_ is VTs) v) 9
-  (ite ((_ is VRegex) v) 10 (- 1)))))))))))))
-
-; the BSON type byte reported by Inspect
-(define-fun btype ((v Val)) (_ BitVec 8)
-  (ite (or ((_ is VNil) v) ((_ is VNull) v) ((_ is VMissing) v)) #x0a
-  (ite ((_ is VI32) v) #x10 (ite ((_ is VI64) v) #x12 (ite ((_ is VF64) v) #x01 (ite ((_ is VDec) v) #x13
-  (ite ((_ is VStr) v) #x02 (ite ((_ is VDoc) v) #x03 (ite ((_ is VArr) v) #x04 (ite ((_ is VBin) v) #x05
-  (ite ((_ is VOid) v) #x07 (ite ((_ is VBool) v) #x08 (ite ((_ is VDate) v) #x09 (ite ((_ is VTs) v) #x11
-  (ite ((_ is VRegex) v) #x0b #x00)))))))))))))))
-
-; a supported BSON value (shallow): anything but a foreign Go type
-(define-fun wf1 ((v Val)) Bool (not ((_ is VOther) v)))
+; (class, btype, wf1 and the declaration of cmp are in base.smt2)
 
 ; --- assumed total orders of the standard library (strings.Compare, bytes.Compare)
 (declare-fun strcmp (Str Str) Int)
@@ -108,7 +92,6 @@
        (strcmp (S_primitive_Regex.Options a) (S_primitive_Regex.Options b))))
 
 ; --- the order itself; sequences through a first-difference witness
-(declare-fun cmp (Val Val) Int)
 (declare-fun fdA (Seq_Val Seq_Val) Int)             ; first index where two arrays differ (or the shorter length)
 (declare-fun fdD (Seq_S_primitive_E Seq_S_primitive_E) Int)
 (define-fun minI ((a Int) (b Int)) Int (ite (< a b) a b))
